@@ -348,7 +348,7 @@ NTREES = 400
 
 def st_simplify_deep(idx: int, x0: int, x1: int, x2: int) -> bool:
     """
-    pre: 0 <= idx < 400 and idx % 8 == __SHARD__
+    pre: 0 <= idx < 400 and idx % 16 == __SHARD__
     post: _
     """
     # simplification is idempotent and leaf-preserving for EVERY nesting: trees drawn from a generator, leaves symbolic
